@@ -285,3 +285,17 @@ def compare(ctx, name, impl, model, cases_by_id, describe=None):
         detail = "first difference in case %s: impl=%r model=%r" % (cid, impl.get(cid), model.get(cid))
     ctx.obl("correspondence:" + name, "correspondence", ok, detail)
     return diffs
+
+
+def crashed(lines):
+    """the implementation aborted, panicked or timed out on this case (never acceptable: C08), else None"""
+    for l in lines or ["abort (no output)"]:
+        w = l.split()[0] if l.split() else ""
+        if w in ("abort", "harness-panic"):
+            return "the process aborted or the call did not return (%s)" % l[:60]
+        if w == "panic":
+            try:
+                return "panic: " + unhx(l.split()[1]).decode("utf-8", "replace")[:200]
+            except Exception:
+                return "panic"
+    return None
